@@ -216,3 +216,51 @@ def green_area(segs):
             c = (p1[k] if k < len(p1) else 0) - (p2[k] if k < len(p2) else 0)
             tot += c / (k + 1)
     return float(tot / 2)
+
+
+# ---------------------------------------------------------------- sign changes of a derivative coordinate (C03)
+def frac_sqrt(x, digits=40):
+    """square root of a non-negative Fraction, as a Fraction, absolute-relative error below 10**-digits"""
+    x = Fr(x)
+    if x < 0: raise ValueError('negative')
+    if x == 0: return Fr(0)
+    s = 10 ** (2 * digits)
+    # sqrt(n/d) = sqrt(n*d)/d ; scale so that the integer square root carries `digits` extra decimal digits
+    n, d = x.numerator, x.denominator
+    return Fr(math.isqrt(n * d * s), d * 10 ** digits)
+
+
+def sign_change_roots(cs):
+    """cs: exact power-basis coefficients [c0, c1, c2] (Fractions, degree <= 2) of a polynomial q.
+    Returns (roots, reldisc): the real parameters (Fractions, exact for degree 1, to ~1e-40 for degree 2) at which q
+    CHANGES SIGN -- simple zeros only: a double zero is not a sign change, a constant polynomial has none -- in
+    increasing order, anywhere on the real line; reldisc = disc / max(c1^2, |4 c0 c2|) for a genuine quadratic (None
+    otherwise), a measure of how close the two zeros are to merging."""
+    cs = [Fr(c) for c in cs] + [Fr(0)] * (3 - len(cs))
+    c, b, a = cs[0], cs[1], cs[2]
+    if a == 0:
+        if b == 0: return [], None
+        return [-c / b], None
+    disc = b * b - 4 * a * c
+    scale = max(b * b, abs(4 * a * c))
+    rel = disc / scale if scale else Fr(0)
+    if disc <= 0: return [], rel
+    s = frac_sqrt(disc)
+    r1, r2 = (-b - s) / (2 * a), (-b + s) / (2 * a)
+    return sorted([r1, r2]), rel
+
+
+def subdivide(pts, a, b):
+    """control polygon (exact Fractions) of the Bezier with control polygon pts restricted to [a,b], by blossoming:
+    the k-th control point is the blossom with k arguments b and n-k arguments a"""
+    n = len(pts) - 1
+    a, b = Fr(a), Fr(b)
+    P0 = [(Fr(x), Fr(y)) for x, y in pts]
+    out = []
+    for k in range(n + 1):
+        args = [b] * k + [a] * (n - k)
+        p = P0
+        for t in args:
+            p = [((1 - t) * u[0] + t * v[0], (1 - t) * u[1] + t * v[1]) for u, v in zip(p, p[1:])]
+        out.append(p[0])
+    return out
